@@ -36,7 +36,7 @@ func specAllowed(quota, uc uint32) uint32 {
 // A completed request leaves no connection behind, on every return path (C18).
 //@ func SendServiceUsageRequest [C18]
 //@   requires ue != nil && sur != nil && ue.RatingClient != nil
-//@   requires [C18 C20] factory.ChfConfig != nil && factory.ChfConfig.Configuration != nil && factory.ChfConfig.Configuration.RfDiameter != nil && factory.ChfConfig.Configuration.RfDiameter.Tls != nil
+//@   requires [C18 C20] factory.SpecValidated(factory.ChfConfig)
 //@   ensures ghostLiveConns == old(ghostLiveConns)
 //@   ensures assumed GhostRequests >= old(GhostRequests)
 //@   ensures [C11 C18] (result1 == nil) == (result0 != nil)
